@@ -7,8 +7,7 @@ from harness import common, gen, alpha, arrays
 
 PID = "C17"
 RULE = ("seeded EMD 0.1 files (1-4 data groups tagged emd_group_type=1 at depth 0-3 of ordinary groups, any rank 1-4 and dtype, "
-        "full-length 1-based dim datasets with name / units), non-EMD HDF5 files (missing / wrong header attributes, wrong "
-        "versions, no roots, unrelated content) and non-HDF5 bytes; read() observed as: imported arrays by name with data token, "
+        "full-length 1-based dim datasets with name / units), non-EMD HDF5 files (missing / wrong header attributes, files emdfile wrote whose header version is changed to 1.1 / 2.0 / 0.9 / 1.-1 …, no roots, unrelated content) and non-HDF5 bytes; read() observed as: imported arrays by name with data token, "
         "per-axis dim values (bit-exact), names and units, single Array vs. root, or the kind of error; compared with the Lean "
         "legacy model and with the direct predicate; non-trivial = >= 2 data groups or a refused file; distinct by recipe hash")
 GNAMES = ["data", "raw", "experiment 1", "Mess_é", "stack", "a", "b", "image", "spectrum"]
@@ -38,6 +37,11 @@ def cases(tier, seed):
                                "dtype": r.choice(gen.DTYPES), "shape": shape, "seed": r.randrange(10**6), "dims": dims,
                                "defect": r.choice([None] * 8 + ["no_dim", "no_units", "short_dim"])})
             yield {"kind": "legacy", "groups": groups, "extra_attrs": r.random() < 0.3}
+        elif c < 0.72:
+            # a file emdfile itself wrote, with only the header's version numbers changed: not EMD 1.0 any more
+            maj, mnr = r.choice([(1, 1), (1, 7), (2, 0), (3, 4), (0, 9), (1, -1), (0, 0), (0, 1), (10, 0), (1, 10)])
+            yield {"kind": "foreign", "spec": "version", "major": maj, "minor": mnr, "release": r.choice([None, 0, 3]),
+                   "tree": gen.gen_tree(r, maxdepth=2)}
         elif c < 0.85:
             yield {"kind": "foreign", "spec": r.choice(["empty", "attrs_only", "wrong_version", "no_roots", "group", "wrong_type",
                                                          "tag_str", "tag_two"])}
@@ -49,6 +53,16 @@ def build_file(case, path):
     if case["kind"] == "junk":
         with open(path, "wb") as f:
             f.write(case["bytes"].encode("latin1"))
+        return
+    if case["kind"] == "foreign" and case["spec"] == "version":
+        root, _ = gen.build_tree(case["tree"])
+        with common.quiet():
+            emdfile.save(path, root)
+        with h5py.File(path, "a") as f:
+            f.attrs["version_major"] = case["major"]
+            f.attrs["version_minor"] = case["minor"]
+            if case["release"] is not None:
+                f.attrs["version_release"] = case["release"]
         return
     with h5py.File(path, "w") as f:
         if case["kind"] == "foreign":
